@@ -13,17 +13,19 @@ Close Scope Q_scope.
 Open Scope string_scope.
 Open Scope list_scope.
 
-(* contract of the oracle field smallest_probability: a product of minima of |coeff|/kappa *)
-Definition probs_nonneg (O : oracles) : Prop := forall a, (0 <= smallest_probability O a)%Q.
-
 (* `exact_class O c` = c is a find_cuts call (seeded or not), a from_instruction call, or a generation that does not
-   reach the sampler.  Which generations those are: *)
-Theorem c09_inf_is_exact : forall (O : oracles), probs_nonneg O -> forall a, exact_class O (GenExact O a) = true.
+   reach the sampler.  Which generations those are (smallest_probability is COMPUTED from the coefficient lists of the
+   bases as weights.py/qpd_basis.py do: prod over bases of the least |coeff|/kappa that is not within 1e-14 of 0): *)
+Theorem c09_inf_is_exact : forall (O : oracles) a, exact_class O (GenExact O a) = true.
 Proof. exact inf_exact_class. Qed.
 
-Theorem c09_finite_exact_threshold : forall (O : oracles) a n, (1 / n <= smallest_probability O a)%Q ->
-  exact_class O (Gen O a (NFin n)) = true.
-Proof. intros O a n H; simpl. now rewrite finite_exact_threshold. Qed.
+(* the fact behind it, formerly the run-time-monitored hypothesis probs_nonneg *)
+Theorem c09_smallest_probability_nonneg : forall bases p, prod_min_nonzero bases = Some p -> (0 <= p)%Q.
+Proof. exact prod_min_nonzero_nonneg. Qed.
+
+Theorem c09_finite_exact_threshold : forall (O : oracles) a n p,
+  smallest_probability O a = Some p -> (1 / n <= p)%Q -> exact_class O (Gen O a (NFin n)) = true.
+Proof. intros O a n p Hp H; simpl. now rewrite (finite_exact_threshold O a n p Hp H). Qed.
 
 Theorem c09_invalid_num_samples_exact : forall (O : oracles) a n, (n < 1)%Q -> exact_class O (Gen O a (NFin n)) = true.
 Proof. intros O a n H; simpl. now rewrite invalid_never_samples. Qed.
@@ -84,7 +86,7 @@ Theorem c09_seeded : forall (O : oracles) g0 h a s,
 Proof. exact seeded_closed_form. Qed.
 
 (* exact-weight generation is a pure function of its arguments (and the decomposition registry): num_samples = inf … *)
-Theorem c09_gen_exact_pure : forall (O : oracles), probs_nonneg O -> forall g0 h a,
+Theorem c09_gen_exact_pure : forall (O : oracles) g0 h a,
   snd (step O (run O g0 h) (GenExact O a)) = RGen O (gen_exact_pure O (basis_registry g0) a NInf).
 Proof. exact gen_exact_closed_form. Qed.
 
@@ -121,13 +123,14 @@ Definition O_demo : oracles :=
       (fun a => Nat.even a) (fun _ => true)
       (fun fresh tbl basis a t =>
          match fresh with Ok c => length (action_dict c) | _ => 99 end + 10 * a + 100 * t + 1000 * length basis)
-      (fun _ => (1 # 6)%Q) (fun _ _ => true) (fun s _ _ => S s)
+      (fun _ => [[(1#2); (1#2); (1#2); (-1#2); (1#2); (-1#2)]]%Q) (fun _ _ => true) (fun s _ _ => S s)
       (fun basis a _ => a + length basis)
       (fun basis a _ s => a + length basis + 7 * s)
       (fun basis a => a + 2 * length basis).
 
-Example demo_nonneg : probs_nonneg O_demo.
-Proof. intros a; simpl; unfold Qle; simpl; lia. Qed.
+(* the cx basis: six coefficients of magnitude 1/2, probabilities 1/6 each *)
+Example demo_smallest : option_map Qred (smallest_probability O_demo 2) = Some (1 # 6)%Q /\ prod_min_nonzero [[0%Q; 0%Q]] = None.
+Proof. vm_compute. split; reflexivity. Qed.
 
 Definition g_demo : gstate :=
   match import_actions with
@@ -188,12 +191,87 @@ Print Assumptions c09_seeded.
 Print Assumptions c09_gen_exact_pure.
 Print Assumptions c09_gen_finite_exact_pure.
 Print Assumptions c09_inf_is_exact.
+Print Assumptions c09_smallest_probability_nonneg.
 Print Assumptions c09_finite_exact_threshold.
 Print Assumptions c09_invalid_num_samples_exact.
 Print Assumptions c09_from_instruction_pure.
 Print Assumptions c09_fresh_interpreter.
 Print Assumptions c09_copy_ok.
 Print Assumptions c09_import_registry_ok.
+
+(* ================================================================================================== *)
+(* The cut finder made concrete: history independence against the executable search model of C07/C08.   *)
+(* ================================================================================================== *)
+(* O_cf fuel st O = the oracle record O with find_cuts_pure replaced by Model/ProcessCF.find_cuts_reg: the action list of
+   the search is read from the fresh filtered copy of the PROCESS registry (get_group "TwoQubitGates"), the function table
+   must hold the five functions the search model interprets, the tape is st seed (O-rng) — and then Model/CutFinder's
+   find_cuts runs.  `import_state g`: g's action registry and LO function table are as import leaves them. *)
+From CKT Require Model.CutFinder.
+From CKT Require Import Model.ProcessCF Proofs.ProcessCFP.
+
+(* the search model's own hard-coded action list is what the process registry yields, for all option settings *)
+Theorem c09_registry_yields_search_actions : forall gl wl, exists c,
+  an_copy import_registry (Some (cut_search_groups gl wl)) = Ok c /\
+  two_qubit_group c = Some (Some (CutFinderState.search_actions gl wl)).
+Proof. exact copy_group_std. Qed.
+
+(* same circuit, constraints and integer seed => the result, in EVERY state reachable by any history from a state as import
+   leaves it, is the executable cut-finder model run on the tape of that seed *)
+Theorem c09_seeded_search_model : forall fuel st (O : oracles) g0 h a s, import_state g0 ->
+  snd (step (O_cf fuel st O) (run (O_cf fuel st O) g0 h) (FindCuts (O_cf fuel st O) a (Seeded s))) =
+  RFind (O_cf fuel st O) (CutFinder.find_cuts fuel (input_of a (basis_registry g0) (st s))).
+Proof. exact seeded_search_model. Qed.
+
+(* seed None: the same with the entropy-determined tape as an explicit input *)
+Theorem c09_search_model_any_tape : forall fuel st (O : oracles) g0 h a s, import_state g0 ->
+  snd (step (O_cf fuel st O) (run (O_cf fuel st O) g0 h) (FindCuts (O_cf fuel st O) a s)) =
+  RFind (O_cf fuel st O) (CutFinder.find_cuts fuel (input_of a (basis_registry g0) (tape_of (O_cf fuel st O) s))).
+Proof. exact search_model_any_tape. Qed.
+
+(* two interpreters, arbitrary generator states, arbitrary histories: equal results *)
+Theorem c09_seeded_same_everywhere : forall fuel st (O : oracles) basis np py np' py' h h' a s,
+  snd (step (O_cf fuel st O) (run (O_cf fuel st O) (fresh_process import_registry basis np py) h)
+            (FindCuts (O_cf fuel st O) a (Seeded s))) =
+  snd (step (O_cf fuel st O) (run (O_cf fuel st O) (fresh_process import_registry basis np' py') h')
+            (FindCuts (O_cf fuel st O) a (Seeded s))).
+Proof. exact seeded_same_everywhere. Qed.
+
+Theorem c09_import_state_reachable : forall fuel st (O : oracles) g h,
+  import_state g -> import_state (run (O_cf fuel st O) g h).
+Proof. exact import_state_run. Qed.
+
+(* non-vacuity: a triangle of cx on 3 qubits, at most 2 qubits per subcircuit; after a history with interference, a sampled
+   generation and an unseeded search the seeded search returns the two gate cuts the search model computes *)
+Definition cf_q2 := Circ.Qpd2 0 None (Some (0, None)).
+Definition cf_in : CutFinder.fc_input :=
+  CutFinder.mkIn 3 0 [Circ.mkI (Circ.Gate 0) [0; 1] []; Circ.mkI (Circ.Gate 0) [1; 2] []; Circ.mkI (Circ.Gate 0) [2; 0] []]
+                 [] 2 true true 1024%Q (Some 10000%Z) (fun _ => 0%Q).
+Definition cf_a : cf_args := mkCA cf_in (fun basis => if existsb (String.eqb "cx") basis then [(0, (3%Q, cf_q2))] else []).
+Definition cf_st (k : Z) : nat -> Q := fun n => (Z.of_nat n * k # 7)%Q.
+Definition OC_demo := O_cf 200 cf_st O_demo.
+Definition cf_g0 := fresh_process import_registry ["cx"] 11 12.
+Definition cf_h : list (event OC_demo) :=
+  [ Call (FindCuts OC_demo cf_a (Seeded 3)) ; Perturb 50 60 ; Call (Gen OC_demo 2 (NFin 3)) ;
+    Call (FindCuts OC_demo cf_a (Unseeded (fun _ => (1 # 3)%Q))) ; Call (FromInstruction OC_demo 1) ].
+
+Example demo_search_model :
+  import_state cf_g0 /\
+  snd (step OC_demo (run OC_demo cf_g0 cf_h) (FindCuts OC_demo cf_a (Seeded 5))) =
+  RFind OC_demo (Some (Ok ([Circ.mkI (Circ.Gate 0) [0; 1] []; Circ.mkI cf_q2 [1; 2] []; Circ.mkI cf_q2 [2; 0] []],
+                           CutFinder.mkMD [(CutFinder.GateCut, 1); (CutFinder.GateCut, 2)] 81%Q true))).
+Proof.
+  split; [split; reflexivity|].
+  (* vm_compute on the whole goal would normalise the oracle record inside the type `result OC_demo` (open terms);
+     go through the theorem and evaluate the closed cut-finder run only *)
+  etransitivity; [exact (seeded_search_model 200 cf_st O_demo cf_g0 cf_h cf_a 5 (conj eq_refl eq_refl))|].
+  apply f_equal. vm_compute. reflexivity.
+Qed.
+
+Print Assumptions c09_registry_yields_search_actions.
+Print Assumptions c09_seeded_search_model.
+Print Assumptions c09_search_model_any_tape.
+Print Assumptions c09_seeded_same_everywhere.
+Print Assumptions c09_import_state_reachable.
 
 (* ================================================================================================== *)
 (* Tie to the source: regenerated facts (tools/facts_c09.py walks the AST of the whole package).       *)
